@@ -343,7 +343,9 @@ func (e *edEnv) signCase(k edKey, h hcfg, m msgCase, dirty bool) []byte {
 	cls := h.name + "/" + m.cls
 	c.Current(N + " sign " + k.label + " " + cls)
 	msg := append([]byte(nil), m.m...)
-	desc := func() string { return fmt.Sprintf("key %s (%s) hash=%s msg(%s)=%s", k.label, hx(k.sk.Bytes()), h.name, m.cls, hx(m.m)) }
+	desc := func() string {
+		return fmt.Sprintf("key %s (%s) hash=%s msg(%s)=%s", k.label, hx(k.sk.Bytes()), h.name, m.cls, hx(m.m))
+	}
 	want, _, werr := e.p.Sign(k.scalar, k.randSrc, k.A, m.m, h.new())
 	var sig []byte
 	var err error
